@@ -1022,6 +1022,9 @@ retry:
 					if p.transformParagraph(last.(*ast.Paragraph), reader, pc) {
 						// Paragraph has been transformed.
 						// So this parser is considered as failing.
+						if verifOn {
+							verifEmit("Discard", reader, node)
+						}
 						continuable = false
 						goto retry
 					}
